@@ -107,7 +107,7 @@ class Cycles:
                 s = prev.slots[did]
                 if s['in'] is not None or s['out'] is not None:
                     ctx.report('accept_while_busy', f'{did} accepted {part.name} at {t!r} although it held '
-                               f'{(s["in"] or s["out"]).name} at the previous event boundary')
+                               f'{(s["in"] if s["in"] is not None else s["out"]).name} at the previous event boundary')
                     return
             off = self.offset[did]
             if off:
